@@ -38,19 +38,71 @@ func init() {
 	})
 }
 
-// workerClosures returns the closures of fn handed to errgroup.Go.
+// workerClosures returns the closures of fn handed to errgroup.Go, including the ones a
+// same-package factory called at the Go site returns.
 func (c *Ctx) workerClosures(fn *ssa.Function) []*ssa.Function {
 	var out []*ssa.Function
 	for _, call := range calls(fn, named(egGo)) {
 		for _, a := range call.Common().Args {
-			switch x := a.(type) {
-			case *ssa.MakeClosure:
-				out = append(out, x.Fn.(*ssa.Function))
-			case *ssa.Function:
-				out = append(out, x)
+			out = append(out, closuresOfValue(a)...)
+		}
+	}
+	return out
+}
+
+// closuresOfValue resolves a function-typed value to the functions it can be.
+func closuresOfValue(v ssa.Value) []*ssa.Function {
+	var out []*ssa.Function
+	seen := map[ssa.Value]bool{}
+	var walk func(v ssa.Value, d int)
+	walk = func(v ssa.Value, d int) {
+		if v == nil || seen[v] || d > 6 {
+			return
+		}
+		seen[v] = true
+		switch x := v.(type) {
+		case *ssa.Function:
+			out = append(out, x)
+		case *ssa.MakeClosure:
+			if f, ok := x.Fn.(*ssa.Function); ok {
+				out = append(out, f)
+			}
+		case *ssa.ChangeType:
+			walk(x.X, d+1)
+		case *ssa.Phi:
+			for _, e := range x.Edges {
+				walk(e, d+1)
+			}
+		case *ssa.UnOp:
+			if x.Op != token.MUL {
+				return
+			}
+			cells := []ssa.Value{x.X}
+			if fv, ok := x.X.(*ssa.FreeVar); ok {
+				cells = captured(fv)
+			}
+			for _, cell := range cells {
+				if al, ok := cell.(*ssa.Alloc); ok {
+					for _, st := range storesTo(al) {
+						walk(st.Val, d+1)
+					}
+				}
+			}
+		case *ssa.FreeVar:
+			for _, b := range captured(x) {
+				walk(b, d+1)
+			}
+		case *ssa.Call:
+			if callee := x.Common().StaticCallee(); callee != nil && len(callee.Blocks) > 0 && callee.Signature.Results().Len() == 1 {
+				for _, b := range callee.Blocks {
+					if r, ok := b.Instrs[len(b.Instrs)-1].(*ssa.Return); ok && len(r.Results) == 1 {
+						walk(r.Results[0], d+1)
+					}
+				}
 			}
 		}
 	}
+	walk(v, 0)
 	return out
 }
 
